@@ -4,12 +4,13 @@ Oracle: ideal-gas definitions written in vf/oracles.gas_vars and the oracle's ow
 (vf/cases.cons_from_prim); the names checked are discovered at run time from model.list_var().
 """
 import math
+import zlib
 
 import numpy as np
 from hypothesis import strategies as st
 
 from vf import cases, gen, oracles
-from vf.runner import SubCheck, require, target
+from vf.runner import SubCheck, canonical, require, target
 
 RULE = ("cases = model (euler1d, nozzle with a section law, euler2d, shallowwater, convection, burgers; gamma in (1,2], g>0) x 1..24 cells "
         "(2-D: nx,ny in 1..5) x primitive states with ln(rho), ln(p), ln(h) over 12 decades and Mach/Froude in [-10,10], any angle in 2-D; "
@@ -72,7 +73,12 @@ def check(case):
         n = case["mesh"]["n"]
         s = (np.arange(n) + 0.5) / n
         prim = cases.prim_state(md, case["state"], s)
-    model = cases.build_model(md)
+    mdb = md
+    if name in ("shallowwater", "euler1d", "nozzle") and md.get("source") is None and zlib.crc32(canonical(case).encode()) % 3 == 0:
+        # a model that also carries user source terms (friction on the momentum equation): conversions and named variables do not involve them
+        mdb = dict(md, source=[None, dict(c0=0.3, cx=0.1, cq=[0.0, -0.2]), None][:cases.model_neq(md)])
+        labels.append("model-with-source")
+    model = cases.build_model(mdb)
     if name == "euler2d":
         bc = {"type": "per"}
         disc = cases.build_disc2d(model, mesh, dict(name="extrapol2d1"), "hlle", {t: bc for t in mesh.list_of_bctags()})
